@@ -184,7 +184,7 @@ def run_case(ck, lib, case):
 
 def strategy():
   models = mg.models(max_bodies=5, sensors=True, mocap=True, plane=None,
-                     opt_kwargs=dict(flags=True, fluid=True))
+                     opt_kwargs=dict(flags=True, fluid=True, stress=True))
   return st.tuples(models, mg.state_seed(), st.integers(0, 20), st.integers(0, 1 << 20),
                    st.sampled_from(['step12', 'step12', 'skipPOS', 'skipVEL', 'invPOS', 'invVEL', 'pure', 'idem']),
                    st.integers(0, 1))
